@@ -7,7 +7,7 @@ import pandas as pd
 
 from .. import common, checklib
 
-LEVEL = "exploration"
+LEVEL = "proof"
 
 SEEN = []
 
@@ -268,4 +268,4 @@ def run(report, findings):
                 "extra_namespace} x builtin / non-builtin names, argument and callee roles, plain / dotted / backquoted names, env 0..3 "
                 "through four nested callers, names bound to None; non-trivial = the resolved source equals the first defined scope",
         "samples": samples})
-    report.assumptions = ["the caller chain is generated with exec so that exactly one frame defines the local"]
+    report.assumptions = list(dict.fromkeys(list(report.assumptions) + ["the caller chain is generated with exec so that exactly one frame defines the local"]))
